@@ -26,6 +26,13 @@ THEOREMS = [
     "C19.group_log_wellformed",
     "C19.group_log_monotone",
     "C19.sync_duration_drops_element",
+    "C19.source_released_iff",
+    "C19.source_kept_while_holder",
+    "C19.source_released_with_last_holder",
+    "C19.live_subscriber_keeps_receiving",
+    "C19.stepN_eq_stepD",
+    "C19.runN_eq_runD",
+    "C19.nested_same_key_element_routed",
     "C19.stepD_eq_step",
     "C19.runD_eq_run",
     "C19.group_announced_before_duration_before_element",
@@ -69,7 +76,8 @@ def model_request(case):
     durs = case["durs"] if case["op"] == "grp_until" else []
     return {"op": "grp_run", "events": evs, "key": case["key"], "elem": case["elem"],
             "subj_raise": case["subj_raise"], "dur_raise": case["dur_raise"] if case["op"] == "grp_until" else [],
-            "dsync": [d.get("sync") for d in durs], "dgrp": [d.get("grp") for d in durs], "imm": case["imm"]}
+            "dsync": [d.get("sync") for d in durs], "dgrp": [d.get("grp") for d in durs], "imm": case["imm"],
+            "nest": case.get("nest") or []}
 
 
 # ------------------------------------------------------------------------------------------ real code
@@ -185,8 +193,26 @@ def impl(case):
     now = lambda: int(sched.clock)
     until = case["op"] == "grp_until"
     hots = {}
+    nest = case.get("nest")          # re-entrancy cases: the source is a Subject fed by scheduled actions and by the outer observer
+    depth = [0]
+
+    def feed(subj, n):
+        def act(*_):
+            if n[0] == "N":
+                subj.on_next(fw.dec(n[1]))
+            elif n[0] == "C":
+                subj.on_completed()
+            else:
+                subj.on_error(InjectedError(n[1]))
+        return act
+
     for h in case["hots"]:
-        hots[h] = _mk_hot(sched, case["src"] if h == "s" else case["durs"][h]["hot"])
+        if h == "s" and nest is not None:
+            hots[h] = Subject()
+            for t, n in case["src"]:
+                sched.schedule_absolute(t, feed(hots[h], n))
+        else:
+            hots[h] = _mk_hot(sched, case["src"] if h == "s" else case["durs"][h]["hot"])
     src = hots["s"]
     keyf = FnTab.from_json(case["key"])
     elemf = FnTab.from_json(case["elem"]) if case["elem"] is not None else None
@@ -244,6 +270,13 @@ def impl(case):
         log.append([now(), "O", ["G", g, enc(grp.key)]])
         if g >= len(case["imm"]) or case["imm"][g]:
             subscribe_group(g)
+        if nest is not None and depth[0] == 0 and g < len(nest):
+            depth[0] = 1                  # feedback: push follow-up elements into the source from inside on_next(group)
+            try:
+                for y in nest[g]:
+                    src.on_next(fw.dec(y))
+            finally:
+                depth[0] = 0
 
     sm = subject_mapper if tap else None
     if until:
@@ -277,7 +310,7 @@ def impl(case):
     dur_subs = []
     for g in range(len(case["durs"]) if until else 0):
         dur_subs.append(fw.subs_json(hots[g].subscriptions) if g in hots else [])
-    return {"log": log, "src_sub": fw.subs_json(src.subscriptions), "dur_subs": dur_subs, "escaped": escaped}
+    return {"log": log, "src_sub": fw.subs_json(src.subscriptions) if nest is None else [], "dur_subs": dur_subs, "escaped": escaped}
 
 
 def impl_part(case):
@@ -370,6 +403,8 @@ def canon_model(case, resp):
                     dur_subs[e[1]][-1][1] = t
             elif e[0] == "escaped":
                 escaped.append(e[1])
+    if case.get("nest") is not None:
+        src_sub = []           # a Subject source records no subscription interval
     res = {"log": log, "src_sub": src_sub, "dur_subs": dur_subs, "escaped": escaped}
     if tap:
         res["wlogs"] = resp["wlogs"]
@@ -520,6 +555,42 @@ def gen_part(rng):
     return {"op": "grp_part", "indexed": indexed, "src": src, "pred": pred, "slots": slots, "acts": acts}
 
 
+def gen_nest(rng):
+    """re-entrant feedback cases: Subject source, the outer observer pushes nest[g] into it from inside on_next(group #g)"""
+    until = rng.random() < 0.6
+    pool = list(range(6))
+    keys = rng.choice([["a", "b"], ["a", "b", "c"], [0, False, ""]])
+    key = _fn(rng, pool, keys, 0.0, "kerr")
+    elem = None if rng.random() < 0.6 else _fn(rng, pool, [("e", 0), None, 0, 7], 0.0, "eerr")
+    src, t = [], SUB_AT + rng.choice([5, 10])
+    for _ in range(rng.choice([1, 2, 3, 4, 6])):
+        src.append([t, ["N", enc(rng.choice(pool))]]); t += rng.choice([0, 5, 10, 20])
+    r = rng.random()
+    if r < 0.5:
+        src.append([t, ["C"]])
+    elif r < 0.75:
+        src.append([t, ["E", "s0"]])
+    times = sorted({m[0] for m in src})
+    durs = []
+    if until:
+        for g in range(5):
+            k = rng.random()
+            if k < 0.35:
+                durs.append({"never": 1})
+            elif k < 0.6:
+                durs.append({"grp": rng.choice([0, 1, 2]), "style": "skip"})
+            else:
+                durs.append({"hot": [[rng.choice(times) + rng.choice([0, 0, 5]), rng.choice([["N", 0], ["C"]])]]})
+    hots = ["s"] + [g for g, d in enumerate(durs) if "hot" in d]
+    rng.shuffle(hots)
+    tabk = {fw.key(a): r for a, r in key["tab"]}
+    nest = []
+    for g in range(4):
+        nest.append([enc(rng.choice(pool)) for _ in range(rng.choice([0, 1, 1, 2]))])
+    return {"op": "grp_until" if until else "grp_by", "hots": hots, "src": src, "durs": durs, "key": key, "elem": elem,
+            "subj": "tap", "subj_raise": [], "dur_raise": [], "imm": [rng.random() < 0.9 for _ in range(6)], "acts": [], "nest": nest}
+
+
 def gen_resub(rng):
     pool = rng.choice([list(range(6)), MIXED])
     keys = rng.choice([["a", "b"], ["a", "b", "c"], FALSY, [0, 1]])
@@ -550,6 +621,8 @@ def gen_resub(rng):
 def cases(rng, tier):
     for _ in range(fw.tier_scale(tier, 150, 1500)):
         yield gen_resub(rng)
+    for _ in range(fw.tier_scale(tier, 300, 3000)):
+        yield gen_nest(rng)
     for _ in range(fw.tier_scale(tier, 3000, 30000)):
         yield gen_group(rng)
     for _ in range(fw.tier_scale(tier, 1000, 10000)):
@@ -589,6 +662,8 @@ def oracle(case, out):
         return f"exception escaped into the scheduler: {out['escaped'][:3]}"
     if case["op"] == "grp_part":
         return oracle_part(case, out)
+    if case.get("nest") is not None:
+        return oracle_nest(case, out)
     if case["op"] == "grp_resub":
         if fw.key(out["second"]) != fw.key(out["fresh"]):
             return (f"second subscription of the same grouped observable differs from a fresh one: second (subscribed @{case['sub2']}) "
@@ -887,6 +962,75 @@ def oracle_group(case, out):
     return sync_drops[0] if sync_drops else None
 
 
+def oracle_nest(case, out):
+    """re-entrant feedback (the outer observer pushes elements into a Subject source from inside on_next(group)): a key has at
+    most one live group, every element that reached the operator is delivered exactly once, to a group of its key, and every
+    group ends with its duration or with the source's terminal"""
+    keyf = FnTab.from_json(case["key"])
+    elemf = FnTab.from_json(case["elem"]) if case["elem"] is not None else (lambda x: x)
+    durs = case["durs"] if case["op"] == "grp_until" else []
+    open_, gkey, closed, glog, created_at = {}, {}, {}, {}, {}
+    pending = []          # arrivals not yet delivered: [x, key, value, time]
+    outer_term = None
+    for e in out["log"]:
+        t, kind = e[0], e[1]
+        if kind == "K":
+            x = fw.dec(e[2])
+            pending.append([x, keyf(x), elemf(x), t])
+        elif kind == "M":
+            if not pending:
+                return f"group #{e[2]} created @{t} without an arriving element"
+            k = pending[-1][1]
+            if k in open_:
+                return f"group #{e[2]} created @{t} for key {k!r} although group #{open_[k]} with that key is open (second live group for one key)"
+            open_[k] = e[2]; gkey[e[2]] = k; glog[e[2]] = []; created_at[e[2]] = t
+        elif kind == "O" and e[2][0] == "G":
+            if fw.key(e[2][2]) != fw.key(enc(gkey.get(e[2][1]))):
+                return f"group #{e[2][1]} announced with key {e[2][2]!r}, created for key {enc(gkey.get(e[2][1]))!r}"
+        elif kind == "O":
+            outer_term = (t, e[2])
+            if open_:
+                return f"outer terminal {e[2]}@{t} delivered while groups {sorted(open_.values())} are still open"
+        elif kind == "W":
+            g, n = e[2], e[3]
+            if g in closed:
+                return f"group #{g} received {n} after its terminal"
+            glog[g].append([t, n])
+            if n[0] == "N":
+                hit = next((p for p in pending if p[1] == gkey[g] and fw.key(enc(p[2])) == fw.key(n[1]) and p[3] == t), None)
+                if hit is None:
+                    return f"group #{g} (key {gkey[g]!r}) received {n[1]!r}@{t}, which is no undelivered arriving element of its key"
+                pending.remove(hit)
+            else:
+                closed[g] = (t, n)
+                if open_.get(gkey[g]) == g:
+                    del open_[gkey[g]]
+    sync_lost = [p for p in pending]
+    if sync_lost:
+        return f"elements {[(p[0], p[3]) for p in sync_lost]} reached the operator but were delivered to no group"
+    evs = merged_events(case)
+    src_evs = [(t, ev[1]) for t, ev in evs if ev[0] == "src"]
+    first_term = next(((t, n) for t, n in src_evs if n[0] != "N"), None)
+    for g, (t, n) in closed.items():
+        d = durs[g] if g < len(durs) else {"never": 1}
+        ok = first_term is not None and first_term[0] == t and first_term[1] == n
+        if n == ["C"] and "hot" in d and any(m[0] == t and m[0] >= created_at[g] and m[1][0] in ("N", "C") for m in d["hot"]):
+            ok = True
+        if n == ["C"] and "grp" in d:
+            ns = [m for m in glog[g] if m[1][0] == "N"]
+            # (elements fed back from inside on_next(group) are delivered before the duration subscribes: not counted by it)
+            ok = ok or (len(ns) >= d["grp"] + 1 and ns[-1][0] == t)
+        if not ok:
+            return f"group #{g} ended with {n}@{t} although neither its duration fired nor the source terminated then"
+    if first_term is not None:
+        dangling = [g for g in glog if g not in closed]
+        if dangling:
+            return f"source terminated with {first_term[1]}@{first_term[0]} but groups {dangling} never ended"
+        if outer_term is None or outer_term[1] != first_term[1]:
+            return f"outer subscriber ended with {outer_term}, source terminal is {first_term}"
+    return None
+
+
 def oracle_part(case, out):
     evs = merged_events(case)
     src = [(t, ev[1]) for t, ev in evs if ev[0] == "src"]
@@ -953,6 +1097,14 @@ def nontrivial(case, out):
 
 def bucket(case, out):
     yield case["op"]
+    if case.get("nest") is not None:
+        yield "reentrant-feedback"
+        ann = {e[2][1]: fw.key(e[2][2]) for e in out["log"] if e[1] == "O" and e[2][0] == "G"}
+        kf = FnTab.from_json(case["key"])
+        for g, ys in enumerate(case["nest"]):
+            if g in ann and any(fw.key(enc(kf(fw.dec(y)))) == ann[g] for y in ys):
+                yield "reentrant-feedback:same-key-element-inside-on_next(group)"
+                break
     if case["op"] == "grp_resub":
         yield "resubscription"
         yield "resubscription:" + ("overlapping" if case["sub2"] < 600 else "after-first-ended" if case["dispose1"] or any(n[0] != "N" for _, n in case["src"]) else "first-still-open")
@@ -1060,7 +1212,8 @@ RULE = ("group cases: hot source (0..12 elements over value pools incl. None/0/F
         "elements (both creation orders), between and after, never-firing and synchronously-firing durations, durations derived from the group itself "
         "(g.pipe(skip(n)), n in 0..3, g.pipe(take(1))), outer disposal, late group "
         "subscriptions and group-subscriber disposals at generated times; partition cases: partition / partition_indexed with 2..4 subscriptions "
-        "to the two outputs at different times, disposals, raising / non-boolean predicates; re-subscription cases (oracle only): ONE grouped observable over "
+        "to the two outputs at different times, disposals, raising / non-boolean predicates; re-entrancy cases: a Subject-driven source, the outer observer pushes 0..2 follow-up elements (same or other key) into it from inside "
+        "on_next(group); re-subscription cases (oracle only): ONE grouped observable over "
         "a cold source subscribed at 200 and again (after the first ended, or overlapping) must record what a fresh pipeline records. Distinct by canonical JSON; non-trivial = at least two "
         "groups announced and an element delivered (groups), at least two subscriptions received something (partition).")
 ASSUMPTIONS = [
@@ -1082,7 +1235,12 @@ LEVEL_TEXT = ("Lean theorems over the trace machine of group_by_until/group_by (
               "subscribed, output 1 = filter(pred), output 2 = filter(not pred) in source order, both get the terminal, for all element lists. "
               "The model is tied to /repo by differential runs of the real operators on TestScheduler hot timelines (timed global log, "
               "subscription intervals, writer taps) and an independent property oracle.")
-LEVEL_NOTE = ("Durations derived from the group itself (lambda g: g.pipe(ops.skip(n)) / take(1)) are in the model (`stepD`, re-entrant expire() inside "
+LEVEL_NOTE = ("source_released_iff (closed <-> source terminal seen or error-all happened or (outer stopped and no group subscriber holds a reference)), "
+              "its 'not earlier' / 'not later' corollaries and live_subscriber_keeps_receiving are proved for every event list of `step`. Re-entrant "
+              "feedback from inside the outer on_next (machine `stepN`, Subject-driven source in the correspondence, one level of nesting): "
+              "nested_same_key_element_routed is a local theorem for one fed-back element of the same key and a plain duration; other nested shapes "
+              "(different key, several elements, group-derived durations) are covered by the correspondence and the oracle only. "
+              "Durations derived from the group itself (lambda g: g.pipe(ops.skip(n)) / take(1)) are in the model (`stepD`, re-entrant expire() inside "
               "writer.on_next, nested error-alls, fixed completion loop of fixes/C19_completion_mutates_writers.patch) and in the correspondence; for them "
               "the proved theorems are the ordering theorem group_announced_before_duration_before_element and derived_duration_counts / "
               "derived_duration_expires_with_element (local, any state); the invariant-based theorems are proved for the machine `step` = `stepD` without "
